@@ -463,7 +463,51 @@ def r7_option_precedence(c, facts, rule='C13.R7'):
             c.bad(R, '%s:precedence' % x, 'Config::%s takes %s first and %s second; expected self.args.%s first, then self.file.api.%s: with both given, the CLI reports success without writing the target named on the command line' % (x, inst['first'], inst['then'], x, x), **inst)
 
 
+def r9_location_free(c, facts):
+    """the CLI, the playground and the language server give the main module different locators: nothing of the absolute
+    locator may reach the document, or the same sources give different documents in different front ends / directories"""
+    R = c.rule('C13.R9', 'LOCATION-FREE: implicit component names identify a module relative to the main module, not by its absolute locator')
+    dg = c.anchor(R, 'oal_model::grammar::NodeRef::digest')
+    idx = MF.defs_index(dg)
+    ups = P.call_blocks(dg, 'Digest::update', 'Update::update')
+    rel_sites, abs_sites = [], []
+    for b, t in ups:
+        if len(t['args']) < 2 or 'l' not in t['args'][1]:
+            continue
+        names = {P.strip(n).split('::')[-1] for n, _, _ in MF.slice_back(dg, t['args'][1]['l'], idx)['calls']}
+        if 'url' in names or 'locator' in names:
+            (rel_sites if 'make_relative' in names else abs_sites).append(b)
+    mr = P.call_blocks(dg, 'Url::make_relative')
+    none_t = None
+    if mr:
+        cur = mr[0][1]['target']
+        for _ in range(4):
+            sw = dg.mir['blocks'][cur]['term']
+            if sw['t'] == 'switch':
+                none_t = P.enum_edges(sw).get('0')
+                break
+            if 'target' not in sw:
+                break
+            cur = sw['target']
+    stray = [b for b in abs_sites if none_t is None or not dg.dominates(none_t, b)]
+    if rel_sites and not stray:
+        c.ok(R, {'NodeRef::digest': 'hashes the module locator relative to the base (absolute only when no relative form exists)'})
+    else:
+        c.bad(R, 'names-depend-on-absolute-locator', 'NodeRef::digest hashes the absolute locator of the module: the hash-… names of recursive schemas differ between the CLI, the playground and two checkouts of the same sources, so the front ends do not produce the same document')
+    # the base handed in is the base of the module set
+    ni = c.anchor(R, 'oal_compiler::eval::Context::node_identifier')
+    nidx = MF.defs_index(ni)
+    dcall = P.call_blocks(ni, 'NodeRef::digest')
+    if dcall and len(dcall[0][1]['args']) >= 3 and 'l' in dcall[0][1]['args'][2]:
+        nm = {P.strip(n).split('::')[-1] for n, _, _ in MF.slice_back(ni, dcall[0][1]['args'][2]['l'], nidx)['calls']}
+        if 'base' in nm:
+            c.ok(R, {'node_identifier': 'relative to ModuleSet::base()'})
+        else:
+            c.bad(R, 'digest-base-not-module-set-base', 'node_identifier hands NodeRef::digest a base that is not ModuleSet::base() (%s)' % sorted(nm))
+
+
 def run(c, facts):
+    c.run(r9_location_free, facts)
     c.run(r7_option_precedence, facts)
     import c15
     R8 = c.rule('C13.R8', 'LSP-FRESH: the diagnostics the server publishes are computed from the current texts after every open, change, close or folder change (shared with C15.R1/R2)')
